@@ -507,7 +507,7 @@ func ruleNarrowParse(p *Prog, l *Ledger, tier string) {
 // which says nothing about pages). Any other early exit placed before the "page transmission is done" test lets the
 // rows of the page that follows be stored into the selected page. Rule: for each of the 255 other values of the two
 // page-number digits, with every Hamming decode succeeding, no path from the entry reaches a return without first
-// passing the block that reads b.receiving (the function is evaluated with the digits fixed: branches that depend
+// passing a block that reads b.receiving or compares the page number with the selected one (the function is evaluated with the digits fixed: branches that depend
 // on them only are decided, all others are followed both ways).
 func ruleHeaderReachesEndOfPageTest(p *Prog, l *Ledger, tier string) {
 	const rule = "E12.G9b-header-reaches-end-of-page-test"
@@ -554,6 +554,17 @@ func ruleHeaderReachesEndOfPageTest(p *Prog, l *Ledger, tier string) {
 			if u, ok := ins.(*ssa.UnOp); ok {
 				if _, f, _ := loadedField(u); f == "receiving" {
 					recv[b] = true
+				}
+			}
+			// … or that compares the header's page number with the selected one (the other half of the same decision:
+			// "is this a header of another page")
+			if bo, ok := ins.(*ssa.BinOp); ok && (bo.Op == token.EQL || bo.Op == token.NEQ) {
+				for _, pr := range [][2]ssa.Value{{bo.X, bo.Y}, {bo.Y, bo.X}} {
+					if _, f, _ := loadedField(pr[0]); f == "pageNumber" {
+						if _, isC := pr[1].(*ssa.Const); !isC {
+							recv[b] = true
+						}
+					}
 				}
 			}
 		}
